@@ -79,7 +79,7 @@ def spec(tier, seed):
             continue
         hs.append(Harness(name, obligation=obl, encodes=ENC, bounds=B, timeout_s=1800, tiers=("thorough",)))
     hs.append(Harness("c18_vacuity_witness", expect_fail=True, obligation="twin: file model write/read_at reachable", timeout_s=120))
-    u = Unit("seglog_c18", generate, hs, kani_flags=("-Z", "stubbing"), jobs=3, workers=5, crate_subdir="seglog", harness_prefix="verif::c18::", playback=False)
+    u = Unit("seglog_c18", generate, hs, kani_flags=("-Z", "stubbing"), jobs=2 if tier == "thorough" else 3, workers=4 if tier == "thorough" else 5, crate_subdir="seglog", harness_prefix="verif::c18::", playback=False)
     return PropSpec("C18", [u], native_replay=native_replay,
                     assumptions=["file model: POSIX regular file, no short writes / IO errors", "CRC replaced by a cheap position-weighted sum (CRC is C17's subject)",
                                  "ReadError::Io / WriteError::Io carry a unit payload instead of io::Error",
